@@ -55,20 +55,29 @@ def tsan_reports(text):
     return out
 
 
-def one_run(path, lines, nt, iters, seed, static_api):
+def one_run(path, lines, nt, iters, seed, static_api, only=-1):
     w = pool.Worker(path)
-    res, end = w.run(lines + ["mt %d %d %d %d" % (nt, iters, seed, static_api)], 900)
+    res, end = w.run(lines + ["mt %d %d %d %d %d" % (nt, iters, seed, static_api, only)], 900)
     err = w.stderr_text()
     w.stop()
     return res, end, err
 
 
 def do_run(args):
-    path, lines, nt, iters, seed = args
+    """kind: 'mix' (all methods, table computed first), 'hammer' (one method only: maximal overlap inside
+    one method's code), 'cold' (one method only, fresh process, expectations computed AFTER the threads ran:
+    the very first use of every lazily initialised thing happens concurrently)"""
+    path, lines, nt, iters, seed = args[:5]
+    kind = args[5] if len(args) > 5 else "mix"
+    only = args[6] if len(args) > 6 else -1
     acc = common.Acc()
-    res, end, err = one_run(path, lines, nt, iters, seed, 0)
+    pre = (["mtcold 1"] if kind == "cold" else []) + lines
+    res, end, err = one_run(path, pre, nt, iters, seed, 0, only)
+    acc.count("runs_" + kind)
+    lines = pre + ["# kind=%s only=%s" % (kind, only)]
+    lines = pre
     if isinstance(end, pool.Death):
-        rt.death_violation(acc, PID, end, FL, "mt %d %d %d 0" % (nt, iters, seed), "mt", lines)
+        rt.death_violation(acc, PID, end, FL, "mt %d %d %d 0 %d" % (nt, iters, seed, only), "mt-" + kind, lines)
         return acc
     if end is not None:
         acc.inconc("mt run timed out (threads=%d)" % nt)
@@ -79,19 +88,19 @@ def do_run(args):
     acc.count("overlapping_call_pairs", int(r["overlaps"]))
     acc.sets["mpairs"].add((nt, int(r["mpairs"])))
     acc.count("method_pairs_overlapped_max", 0)
-    acc.cls(("threads", nt))
-    acc.cls(("seed", seed % 7, nt))
+    acc.cls((kind, "threads", nt))
+    acc.cls((kind, only, nt))
     if int(r["mism"]):
         first = bytes.fromhex(r.get("first", "")).decode("latin1") if r.get("first") else ""
         acc.violation("%s/result-differs-under-concurrency" % PID,
                       "threads=%d: %s of %s calls returned something else than the sequential table; first: %s" % (
                           nt, r["mism"], r["calls"], first),
-                      rt.replay_obj(FL, lines + ["mt %d %d %d 0" % (nt, iters, seed)]))
+                      rt.replay_obj(FL, lines + ["mt %d %d %d 0 %d" % (nt, iters, seed, only)]))
     reps = tsan_reports(err)
     for head, libf, text in reps:
         acc.violation("%s/tsan/%s" % (PID, (libf[0] if libf else "no-lib-frame")),
                       "threads=%d %s frames=%s :: %s" % (nt, head, libf, text[:900].replace("\n", " | ")),
-                      rt.replay_obj(FL, lines + ["mt %d %d %d 0" % (nt, iters, seed)], text))
+                      rt.replay_obj(FL, lines + ["mt %d %d %d 0 %d" % (nt, iters, seed, only)], text))
     acc.count("tsan_reports", len(reps))
     acc.sample({"threads": nt, "iters": iters, "calls": int(r["calls"]), "overlaps": int(r["overlaps"]),
                 "distinct_method_pairs_overlapped": int(r["mpairs"])}, cap=3)
@@ -134,8 +143,13 @@ def run(tier):
     else:
         plan = [(t, 400) for t in (2, 4, 8, 16) for _ in range(3)]
     work = [(path, lines, nt, it, run_.seed * 1000 + i) for i, (nt, it) in enumerate(plan)]
+    reps = 1 if tier == "quick" else 4
+    for k in range(reps):
+        for mi, m in enumerate(gen.METHODS):
+            work.append((path, lines, 8, 40 if tier == "quick" else 150, run_.seed * 7777 + mi + 100 * k, "hammer", mi))
+            work.append((path, lines, 8, 6, run_.seed * 9999 + mi + 100 * k, "cold", mi))
     # runs are themselves multi-threaded: keep a few side by side only
-    for acc in pool.pmap(do_run, work, nproc=2):
+    for acc in pool.pmap(do_run, work, nproc=3):
         run_.merge(acc)
     # positive control
     res, end, err = one_run(path, lines, 2, 400, run_.seed, 2)
@@ -149,8 +163,11 @@ def run(tier):
         "rule": "run = T threads x N calls drawn from a corpus of %d items (all 16 methods, succeeding and failing "
                 "requests, gensalt with supplied and OS entropy) over the re-entrant entry points, each thread on its "
                 "own objects; every result compared with the table computed sequentially beforehand; overlap measured "
-                "from per-call timestamps; distinct = (thread count, seed class)" % len(lines),
+                "from per-call timestamps; plus per-method 'hammer' runs (all threads inside one method) and 'cold' "
+                "runs (fresh process, one method, expectations computed after the threads ran so that first use is "
+                "concurrent); distinct = (run kind, method, thread count)" % len(lines),
         "runs": int(a.n.get("runs", 0)),
+        "runs_by_kind": {k: int(a.n.get("runs_" + k, 0)) for k in ("mix", "hammer", "cold")},
         "overlapping_cross_thread_call_pairs": int(a.n.get("overlapping_call_pairs", 0)),
         "distinct_method_pairs_overlapped_per_run": sorted(a.sets.get("mpairs", ())),
         "tsan_reports_with_library_frames": int(a.n.get("tsan_reports", 0)),
